@@ -328,17 +328,98 @@ func (p *Prog) ingestOfFr(fr *Frame, in ssa.Instruction) (src ssa.Value, ok bool
 	if !ok {
 		return nil, false
 	}
-	call, ok := st.Val.(*ssa.Call)
+	call, ok := stripChangeType(st.Val).(*ssa.Call)
 	if !ok {
 		return nil, false
 	}
 	if b, ok := call.Call.Value.(*ssa.Builtin); !ok || b.Name() != "append" {
+		// a pure helper that returns the extended buffer (dsc.join = dsc.join.add(item))
+		if fn, inner := p.appendHelper(call); inner != nil {
+			{
+				{
+					bi, si := -1, -1
+					src := inner.Call.Args[1]
+					if e, ok := varargsElem(src); ok {
+						src = e
+					}
+					for i, par := range fn.Params {
+						if stripChangeType(inner.Call.Args[0]) == ssa.Value(par) {
+							bi = i
+						}
+						if stripChangeType(src) == ssa.Value(par) {
+							si = i
+						}
+					}
+					args := call.Call.Args
+					if bi >= 0 && si >= 0 && bi < len(args) && si < len(args) && p.isFieldLoadFr(fr, args[bi], "join") {
+						return args[si], true
+					}
+				}
+			}
+		}
 		return nil, false
 	}
 	if !p.isFieldLoadFr(fr, call.Call.Args[0], "join") {
 		return nil, false
 	}
 	return call.Call.Args[1], true
+}
+
+// appendHelper: call invokes a private function whose whole body is `return append(a, b)` /
+// `return append(a, b...)` over its parameters; returns the function and the append call.
+func (p *Prog) appendHelper(call *ssa.Call) (*ssa.Function, *ssa.Call) {
+	fn := p.Callee(call)
+	if fn == nil || !p.IsProduct(fn) {
+		return nil, nil
+	}
+	var body *ssa.BasicBlock
+	for _, b := range fn.Blocks {
+		if b == fn.Recover {
+			continue
+		}
+		if body != nil {
+			return nil, nil
+		}
+		body = b
+	}
+	if body == nil || len(body.Instrs) == 0 {
+		return nil, nil
+	}
+	ret, ok := body.Instrs[len(body.Instrs)-1].(*ssa.Return)
+	if !ok || len(ret.Results) != 1 {
+		return nil, nil
+	}
+	inner, ok := stripChangeType(ret.Results[0]).(*ssa.Call)
+	if !ok {
+		return nil, nil
+	}
+	if b, ok := inner.Call.Value.(*ssa.Builtin); !ok || b.Name() != "append" {
+		return nil, nil
+	}
+	for _, in := range body.Instrs[:len(body.Instrs)-1] {
+		switch x := in.(type) {
+		case *ssa.DebugRef, *ssa.ChangeType, *ssa.IndexAddr, *ssa.Slice:
+		case *ssa.Alloc:
+			if x.Comment != "varargs" {
+				return nil, nil
+			}
+		case *ssa.Store:
+			ia, isIA := x.Addr.(*ssa.IndexAddr)
+			if !isIA {
+				return nil, nil
+			}
+			if al, isAl := ia.X.(*ssa.Alloc); !isAl || al.Comment != "varargs" {
+				return nil, nil
+			}
+		case *ssa.Call:
+			if x != inner {
+				return nil, nil
+			}
+		default:
+			return nil, nil
+		}
+	}
+	return fn, inner
 }
 
 // isReset: `B = B[:0]`, `B = nil`, or `B = make([]T, 0, n)` (an empty buffer by any spelling)
@@ -361,6 +442,14 @@ func (p *Prog) isResetFr(fr *Frame, in ssa.Instruction) bool {
 	case *ssa.MakeSlice:
 		k, ok := constDuration(v.Len)
 		return ok && k == 0
+	case *ssa.Call:
+		// a pure helper that returns the emptied buffer (dsc.join = dsc.join.emptied())
+		xs := p.SymX(v)
+		if xs.Op == "slice" && xs.Args[1] == nil && xs.Args[2] != nil && xs.Args[2].Op == "const" && xs.Args[2].Name == "0" {
+			if _, path, ok := xs.Args[0].FieldPath(); ok && path[len(path)-1] == "join" {
+				return true
+			}
+		}
 	}
 	return false
 }
@@ -415,8 +504,11 @@ func (p *Prog) payloadOrigin(fr *Frame, v ssa.Value) payload {
 		switch x := v.(type) {
 		case *ssa.Parameter:
 			if fr.Site != nil && fr.Parent != nil {
-				idx := paramIndex(fr.Fn, x)
-				walk(fr.Parent, fr.Site.Common().Args[idx], cloned, depth+1)
+				if a, afr, okA := fr.Arg(paramIndex(fr.Fn, x)); okA {
+					walk(afr, a, cloned, depth+1)
+					return
+				}
+				pl.origin = "other"
 				return
 			}
 			pl.origin, pl.root = "item", x
